@@ -4168,10 +4168,12 @@ Ops!(
     b"yoyomq"     , [0x01, 0x12        ], X, VEX_OP, AVX;
 ]
 "vmovmskpd" = [
-    b"r*y*"       , [0x01, 0x50        ], X, VEX_OP | PREF_66, AVX;
+    b"rdy*"       , [0x01, 0x50        ], X, VEX_OP | AUTO_VEXL | PREF_66, AVX;
+    b"rqy*"       , [0x01, 0x50        ], X, VEX_OP | AUTO_VEXL | PREF_66, AVX;
 ]
 "vmovmskps" = [
-    b"r*y*"       , [0x01, 0x50        ], X, VEX_OP, AVX;
+    b"rdy*"       , [0x01, 0x50        ], X, VEX_OP | AUTO_VEXL, AVX;
+    b"rqy*"       , [0x01, 0x50        ], X, VEX_OP | AUTO_VEXL, AVX;
 ]
 "vmovntdq" = [
     b"m*y*"       , [0x01, 0xE7        ], X, VEX_OP | AUTO_VEXL | ENC_MR | PREF_66, AVX;
@@ -4671,7 +4673,8 @@ Ops!(
     b"y*y*w*"     , [0x02, 0x3A        ], X, VEX_OP | AUTO_VEXL | PREF_66, AVX;
 ]
 "vpmovmskb" = [
-    b"r*y*"       , [0x01, 0xD7        ], X, VEX_OP | PREF_66, AVX;
+    b"rdy*"       , [0x01, 0xD7        ], X, VEX_OP | AUTO_VEXL | PREF_66, AVX;
+    b"rqy*"       , [0x01, 0xD7        ], X, VEX_OP | AUTO_VEXL | PREF_66, AVX;
 ]
 "vpmovsxbd" = [
     b"yomd"       , [0x02, 0x21        ], X, VEX_OP | PREF_66, AVX;
